@@ -44,6 +44,10 @@ def configs(tier, seed):
     for ctx in D.CTXS:
         for mode in MODES:
             out.append(dict(wave='db2', mode=mode, J=2, H=8, W=4, B=2, C=2, ctx=ctx))
+    # several channels / images at the third level (dilation 4)
+    for mode in MODES:
+        out.append(dict(wave='db2', mode=mode, J=3, H=8, W=8, B=1, C=2))
+        out.append(dict(wave='haar', mode=mode, J=3, H=8, W=8, B=2, C=1))
     return out
 
 
